@@ -2,7 +2,7 @@
 # run_all_seeds.sh [seed-name ...] : apply every seeded change (or the named ones) in turn, run the quick check of its
 # property, record the verdict in seeded/RESULTS.tsv (rows of seeds not run are kept)
 cd /verif
-out=seeded/RESULTS.tsv
+out=${RESULTS_OUT:-seeded/RESULTS.tsv}
 tmp=$(mktemp)
 if [ $# -gt 0 ]; then names="$@"; else names=$(cd seeded && ls -d C*/ | tr -d /); fi
 for name in $names; do
